@@ -586,6 +586,11 @@ def run(ctx):
         ("Problem with /data/q1 (and /data/grp/q2)", "Problem with ${q1} (and ${q2})"),
         ("cycle: /data/a -> /data/b/c; /data/d/e.", "cycle: ${a} -> ${c}; ${e}."),
         ("at end /data/q9", "at end ${q9}"),
+        # every name the converter accepts is a path step: a dot inside a name, letters of other scripts, digits, hyphens
+        ("Error evaluating field '/data/grp/q1.a': bad", "Error evaluating field '${q1.a}': bad"),
+        ("Problem with /data/grp/pr\u00e9nom.", "Problem with ${pr\u00e9nom}."),
+        ("loop: /data/v1.2/q-3.x, /data/\u540d\u524d/\u5e74\u9f62", "loop: ${q-3.x}, ${\u5e74\u9f62}"),
+        ("see /data/a.b/c.d. Then /data/e.", "see ${c.d}. Then ${e}."),
         ("[/data/q1]: x", "[${q1}]: x"),
         # multi-line reports: only a line that repeats the line directly before it is dropped - two reports that share
         # their explanatory lines both keep them
